@@ -534,7 +534,20 @@ func sameLoad(a, b ssa.Value) bool {
 	}
 	ra, pa := eng.AccessPath(a)
 	rb, pb := eng.AccessPath(b)
-	if ra != rb || len(pa) != len(pb) || len(pa) == 0 {
+	if ra != rb || len(pa) != len(pb) {
+		return false
+	}
+	if len(pa) == 0 {
+		// two loads of the same cell (captured variable, global, local)
+		ua, oka := a.(*ssa.UnOp)
+		ub, okb := b.(*ssa.UnOp)
+		if !oka || !okb || ua.X != ub.X {
+			return false
+		}
+		switch ra.(type) {
+		case *ssa.FreeVar, *ssa.Global, *ssa.Alloc:
+			return true
+		}
 		return false
 	}
 	for i := range pa {
